@@ -11,6 +11,7 @@ Line protocol of the C14 model (sums are exact integers: `M := Int`).
   C14 merged <req> <parts>   finalize (mergeFruits (parts.map collectSeg))   (with segment truncation)
   C14 mergedtrim <req> <parts>   top-level composite only: finalize (fold compMergeFruits (parts.map collectSegComposite)) — per-segment eviction and merge-time trim above 2*size
   C14 mergedevict <req> <parts>   finalize (fold merge (parts.map collectSegEvict)) — eviction at every composite node, no terms cut
+  C14 mergedfull <req> <parts>   finalize (mergeFruits (parts.map collectSegFull)) — terms cut and composite eviction
   C14 keyasc <req> <parts>   top-level terms, _key ascending or descending, min_doc_count ≤ 1, no terms below: `same` when the truncated
                              merged segments show the buckets and sum_other_doc_count of evalAggPV, `diff …` otherwise, `n/a` when not applicable
   C14 limit  <n> <req> <parts>   finalizeGuarded n on the merged tree: `ok <res>` | `err <count>`
@@ -189,6 +190,12 @@ def handle : List String → String
     match parseReqStr rq, parseParts ps with
     | some r, some parts =>
       showRes r (finalize r ((parts.map (collectSegEvict (M := Int) r)).foldl (merge r) (empty r)))
+    | _, _ => "bad-op"
+  | ["mergedfull", rq, ps] =>
+    -- the complete segment model: terms cut and composite eviction (C14_full_segment_model_exact)
+    match parseReqStr rq, parseParts ps with
+    | some r, some parts =>
+      showRes r (finalize r (mergeFruits r (parts.map (collectSegFull (M := Int) r))))
     | _, _ => "bad-op"
   | ["keyasc", rq, ps] =>
     -- C14_terms_key_asc_exact_under_truncation / C14_terms_key_desc_exact_under_truncation: when the hypotheses hold, the truncated merged
